@@ -130,6 +130,23 @@ func idxAlphabet(extra bool) (calls []e1.Call, ids [][]interface{}) {
 	if !extra {
 		add(cDropIndexWithKey("d", "c", bD("_id", int32(1)))) // (part of the extra calls of C15 otherwise)
 	}
+	// the engine-level API: an index build that may be rejected, followed by a write in the same transaction and a commit
+	add(e1.Call{Name: "engine.txn{CreateIndex({a:1} unique, name \"eng\"); Insert({_id:90,a:1}); Commit}", Do: func(w *world.World) string {
+		txn, err := w.Engine.Begin(w.Ctx, true)
+		if err != nil {
+			return "err"
+		}
+		defer w.Engine.Abort(txn)
+		key := bD("a", int32(1))
+		_, e1 := txn.CreateIndex(lungo.Handle{"d", "c"}, "eng", mongokit.IndexConfig{Key: &key, Unique: true})
+		doc := bD("_id", int32(90), "a", int32(1))
+		_, e2 := txn.Insert(lungo.Handle{"d", "c"}, []*bson.D{&doc}, true)
+		return world.ErrClass(e1) + "," + world.ErrClass(e2) + "," + world.ErrClass(w.Engine.Commit(txn))
+	}})
+	// a compound unique index over four fields, the last of them holding arrays
+	ins(bD("_id", int32(9), "a", int32(1), "b", int32(1), "c", int32(1), "d", bson.A{int32(1), int32(2)}))
+	ins(bD("_id", int32(10), "a", int32(1), "b", int32(1), "c", int32(1), "d", int32(1)))
+	uniq(bD("a", int32(1), "b", int32(1), "c", int32(1), "d", int32(1)), idxOpt{unique: true})
 	add(cReload())
 	if extra {
 		// C15: index-management corner cases
@@ -143,19 +160,6 @@ func idxAlphabet(extra bool) (calls []e1.Call, ids [][]interface{}) {
 		add(cCreateIndex("d", "c", bD("t", int32(1)), idxOpt{expire: i32(3600)}))
 		add(cDropIndex("d", "c", "_id_"))
 		add(cDropIndex("d", "c", "nope"))
-		// the engine-level API: an index build that may be rejected, followed by a write in the same transaction and a commit
-		add(e1.Call{Name: "engine.txn{CreateIndex({a:1} unique, name \"eng\"); Insert({_id:90,a:1}); Commit}", Do: func(w *world.World) string {
-			txn, err := w.Engine.Begin(w.Ctx, true)
-			if err != nil {
-				return "err"
-			}
-			defer w.Engine.Abort(txn)
-			key := bD("a", int32(1))
-			_, e1 := txn.CreateIndex(lungo.Handle{"d", "c"}, "eng", mongokit.IndexConfig{Key: &key, Unique: true})
-			doc := bD("_id", int32(90), "a", int32(1))
-			_, e2 := txn.Insert(lungo.Handle{"d", "c"}, []*bson.D{&doc}, true)
-			return world.ErrClass(e1) + "," + world.ErrClass(e2) + "," + world.ErrClass(w.Engine.Commit(txn))
-		}})
 		add(cDropIndexWithKey("d", "c", bD("a", int32(1))))
 		add(cDropIndexWithKey("d", "c", bD("_id", int32(1))))
 		add(cUpdate("d", "c", true, bD(), bD("$inc", bD("a", int32(1))), false)) // fails on strings / arrays at the k-th document
